@@ -19,6 +19,7 @@ import (
 	"strings"
 	"sync"
 
+	"github.com/ichiban/prolog"
 	"github.com/ichiban/prolog/engine"
 )
 
@@ -65,6 +66,7 @@ var c05Wide = append(append([]c05Tok{}, c05Small...), []c05Tok{
 	{"ld", "is"}, {"ld", "mod"}, {"semi", ";"}, {"cut", "!"}, {"var", "_"}, {"var", "Y"}, {"var", "_G1"}, {"int", "0"}, {"int", "42"},
 	{"flt", "1.5"}, {"flt", "2.0"}, {"q", "'[]'"}, {"q", "'{}'"}, {"q", "'a b'"}, {"q", "'-'"}, {"dq", `"ab"`}, {"dq", `""`},
 	{"gr", "."}, {"gr", "?-"}, {"ld", "dynamic"}, {"inv", "`"},
+	{"q", "''"}, {"q", "''"}, {"gr", "\\"}, {"gr", "/"}, {"q", "'!'"}, {"q", "';'"}, {"q", "'|'"}, {"q", "','"}, {"q", "'A'"}, {"q", "'é'"},
 }...)
 
 // render joins the tokens: one blank before every token except an `open ct`, which is glued.
@@ -154,8 +156,11 @@ type c05Gen struct {
 	r *rand.Rand
 }
 
-var c05Atoms = []string{"a", "b", "foo", "bar", "[]", "{}", "'hello world'", "'\\n'", "'don''t'", "+", "-", "*", "é", "'[]'"}
-var c05Functors = []string{"f", "g", "foo", "point", "'a b'", "-", "+"}
+var c05Atoms = []string{"a", "b", "foo", "bar", "[]", "{}", "'hello world'", "'\\n'", "'don''t'", "+", "-", "*", "é", "'[]'",
+	// edge atoms: empty, single graphic / solo characters, operators of each class, atoms that need quotes
+	"''", "''", "'\\\\'", "\\", "!", ";", "','", "'|'", "'.'", "mod", "\\+", "(:-)", "'A'", "'/*'", "'%'", "' '", "'\\x0\\'",
+	"'" + strings.Repeat("xy", 300) + "'"}
+var c05Functors = []string{"f", "g", "foo", "point", "'a b'", "-", "+", "''", "'\\\\'", "'[]'", "'{}'", "';'", "'!'", "mod", "'|'"}
 var c05Vars = []string{"X", "Y", "_", "_Z", "Xs"}
 var c05Ints = []string{"0", "1", "42", "0'a", "0' ", "0'''", "0x1F", "0b101", "0o17", "9223372036854775807", "9223372036854775808", "123456789012345678901234567890", "007"}
 var c05Floats = []string{"1.5", "0.0", "1.0e10", "2.5E-3", "1.0Inf", "1.7976931348623157e308", "1.0e400"}
@@ -234,7 +239,14 @@ func (g *c05Gen) arg(depth int) []string {
 var c05Goals = []string{"true", "fail", "X = Y", "atom ( X )", "X is 1 + 2", "atom_length ( abc , N )", "member ( X , [ a , b ] )",
 	"append ( X , Y , [ a ] )", "\\+ fail", "findall ( X , member ( X , [ 1 , 2 ] ) , L )", "catch ( throw ( e ) , _ , true )",
 	"call ( true )", "length ( L , 2 )", "foo ( X )", "X = \"abc\"", "atom_codes ( A , \"ab\" )", "number_codes ( N , \" 12\" )",
-	"dynamic ( foo / 1 )", "assertz ( foo ( 1 ) )", "op ( 700 , xfx , === )", "X == Y", "functor ( T , f , 3 )"}
+	"dynamic ( foo / 1 )", "assertz ( foo ( 1 ) )", "op ( 700 , xfx , === )", "X == Y", "functor ( T , f , 3 )",
+	// the empty atom and other edge atoms as goal, evaluable, operand, functor, predicate indicator
+	"''", "'' ( a )", "X is '' + 1", "X is - ''", "write ( a = '' )", "write ( '' / 0 )", "print ( - '' )", "X = '' / 0", "atom_length ( '' , N )",
+	"catch ( '' , E , true )", "atom_to_term ( '' , T , B )", "X = [ '' :- '' ]", "write_canonical ( [ '' , ! , ; , '|' , {} ] )",
+	"'\\\\' ( a )", "X = 'hello_World' ( '' )", "dynamic ( '' / 0 )", "assertz ( '' )", "assertz ( '' ( '' ) )",
+	// enumeration up to a boundary integer, exhausted
+	"between ( 9223372036854775806 , 9223372036854775807 , X )", "findall ( X , between ( 9223372036854775806 , 9223372036854775807 , X ) , L )",
+	"\\+ call ( ( between ( 9223372036854775807 , 9223372036854775807 , X ) , X < 0 ) )", "length ( L , 0 )", "succ ( X , 9223372036854775807 )"}
 
 // goalToks: the tokens of a goal; "(" after a name is functional notation
 func goalToks(g string) []string { return strings.Fields(strings.ReplaceAll(g, " ( ", " (CT ")) }
@@ -459,7 +471,14 @@ func runC05Text(payload string) string {
 	text, err := decName(f[1][1:])
 	must(err)
 
-	// Query: first answer only
+	// the host-side API surface on everything that comes back (first problem wins)
+	host := ""
+	note := func(r string) {
+		if host == "" && r != "" {
+			host = r
+		}
+	}
+	// Query: up to 20 answers and one more Next after the last; every answer scanned as the caller would
 	var q string
 	{
 		i, _ := newInterp("")
@@ -467,9 +486,26 @@ func runC05Text(payload string) string {
 		sols, err := i.QueryContext(ctx, text)
 		if err != nil {
 			q = c05TextResult(false, err)
+			note(hostRenderErr(err))
 		} else {
-			ok := sols.Next()
-			q = c05TextResult(ok, sols.Err())
+			n := 0
+			for n < 20 && sols.Next() {
+				n++
+				if n <= 3 {
+					note(hostDo("Solutions.Scan(map[string]TermString)", func() {
+						m := map[string]prolog.TermString{}
+						_ = sols.Scan(m)
+						_ = fmt.Sprintf("%v %s", m, m)
+					}))
+					note(hostDo("Solutions.Scan(map[string]interface{})", func() {
+						m := map[string]interface{}{}
+						_ = sols.Scan(m)
+						_ = fmt.Sprintf("%v %+v", m, m)
+					}))
+				}
+			}
+			q = c05TextResult(n > 0, sols.Err())
+			note(hostRenderErr(sols.Err()))
 			_ = sols.Close()
 		}
 		cancel()
@@ -479,7 +515,9 @@ func runC05Text(payload string) string {
 	{
 		i, _ := newInterp("")
 		ctx, cancel := context.WithTimeout(context.Background(), c05GoalTimeout)
-		e = c05TextResult(true, i.ExecContext(ctx, text))
+		err := i.ExecContext(ctx, text)
+		e = c05TextResult(true, err)
+		note(hostRenderErr(err))
 		cancel()
 	}
 	// read/1 from user_input holding the text (twice: the second read continues where the first stopped)
@@ -491,14 +529,18 @@ func runC05Text(payload string) string {
 		_, err := engine.Call(&i.VM, compound(",", compound("read", engine.NewVariable()), compound("read", engine.NewVariable())),
 			func(*engine.Env) *engine.Promise { ok = true; return engine.Bool(true) }, nil).Force(ctx)
 		rd = c05TextResult(ok, err)
+		note(hostRenderErr(err))
 		cancel()
+	}
+	if host == "" {
+		host = "ok"
 	}
 	nt := 0
 	if q != "ok" || e != "ok" || rd != "ok" {
 		nt = 1 // an error path of the reader or of the loader was taken
 	}
 	qc, ec, rc := strings.Fields(q)[0], strings.Fields(e)[0], strings.Fields(rd)[0]
-	return fmt.Sprintf("q %s ; e %s ; r %s ### nt=%d kind=%s q=%s e=%s r=%s", q, e, rd, nt, f[0], qc, ec, rc)
+	return fmt.Sprintf("q %s ; e %s ; r %s ; host %s ### nt=%d kind=%s q=%s e=%s r=%s host=%s", q, e, rd, host, nt, f[0], qc, ec, rc, strings.Fields(host)[0])
 }
 
 // ---------------------------------------------------------------------------
